@@ -102,7 +102,9 @@ def gen_case(rng, params, index):
     for _ in range(nsteps):
         # optional environment perturbations before the GEN
         if not first:
-            r = rng.below(10)
+            r = rng.below(11)
+            if r == 10:
+                r = 7   # more weight on pre-created things at output paths
             if r < 5:
                 rel = rng.choice(srcs)
                 model[rel], _op = docs.edit(rng, model[rel])
@@ -121,8 +123,11 @@ def gen_case(rng, params, index):
                 if not engine.must_refuse(g):
                     outs = sorted(engine.predicted_outputs(g, "/B", "/B/proj"))
                     o = posixpath.relpath(rng.choice(outs), "/B")
-                    if rng.chance(0.5):
+                    k = rng.below(4)
+                    if k == 0:
                         steps.append({"op": "WRITE", "path": o, "content": "stale foreign content %d\n" % rng.randint(0, 99)})
+                    elif k == 1:
+                        steps.append({"op": "LINKOUT", "path": o, "kind": rng.choice(["symlink", "hardlink"]), "victim": "victims/v%d.txt" % rng.randint(0, 9)})
                     else:
                         steps.append({"op": "WRITE", "path": posixpath.join(posixpath.dirname(o), ".tmpAb3dE9"), "content": "leftover"})
         first = False
